@@ -14,6 +14,7 @@ func c11(x *mon.Ctx) {
 	x.Level = "exploration"
 	x.Rule = "honest worlds from the generator (fresh PKI per world; random header/body; auth data 0..1000 bytes, extra bytes 0..3000, optional NUL; SVN vectors incl. 0/255; matching UpToDate TCB level at position 0..5 behind non-matching levels of any status; TEE_TCB_SVN[1] in 0..9 with module identities; random masks; FMSPC/hex case; CRLs with 0..50 unrelated serials; five distinct instants inside all windows, 1/8 exactly at nextUpdate) x 3 checking levels x entry forms; plus the two Intel sample quotes under the embedded root. Must-accept oracle; a case is non-trivial when the reference verifier accepts it too; distinct = distinct (world, level, form)."
 	x.Assume = []string{"Go crypto/x509, encoding/pem, encoding/json are correct", "ECDSA P-256 signatures made by the harness are valid"}
+	enableShadow(x) // honest quotes must also be accepted through an options value that verified other honest quotes before
 	n := x.Pick(160, 4000)
 	x.Each(n, func(i int) {
 		r := x.Rand(fmt.Sprint("world", i))
